@@ -154,12 +154,29 @@ func parseTopology(chainS string) (all []nodeSpec, branchStart []bool, fork bool
 			ns, err = parseChain(part)
 		} else if strings.HasPrefix(part, "=") {
 			toks := strings.SplitN(part[1:], ",", 2)
-			if pi != len(parts)-1 || pi < 3 || len(toks) != 2 || (toks[0] != "union" && toks[0] != "join") {
+			if pi != len(parts)-1 || pi < 3 || len(toks) != 2 {
+				return nil, nil, false, -1, fmt.Errorf("bad merge part %q", part)
+			}
+			// head: union | join | ojoin:<lag> (OUTER join, .fill(0.0)) | lunion:<lag>; with a lag every branch but
+			// the first ends in a filter that keeps the last <lag> points out, so that the merging node still
+			// BUFFERS the sets / points of the leading parent when its input ends and has to flush them in Finish
+			head := nodeSpec{kind: toks[0]}
+			if hp := strings.SplitN(toks[0], ":", 2); len(hp) == 2 {
+				v, aerr := strconv.Atoi(hp[1])
+				if aerr != nil || v < 0 {
+					return nil, nil, false, -1, fmt.Errorf("bad merge part %q", part)
+				}
+				head = nodeSpec{kind: hp[0], arg: v}
+			}
+			switch {
+			case (head.kind == "union" || head.kind == "join") && !strings.Contains(toks[0], ":"):
+			case (head.kind == "ojoin" || head.kind == "lunion") && strings.Contains(toks[0], ":"):
+			default:
 				return nil, nil, false, -1, fmt.Errorf("bad merge part %q", part)
 			}
 			ns, err = parseChain("from," + toks[1])
 			if err == nil {
-				ns = append([]nodeSpec{{kind: toks[0]}}, ns[1:]...)
+				ns = append([]nodeSpec{head}, ns[1:]...)
 				merge = len(all)
 			}
 		} else {
@@ -214,6 +231,10 @@ func runCase(chainS, stopKind, class string, n int, stopBound time.Duration) (re
 	idField := "i" // below a join node the fields are prefixed with the parent's name
 	for j, ns := range chain {
 		idx := j + 1
+		if merge >= 0 && (branchStart[j] || j == merge) && nbranch >= 2 && chain[merge].arg > 0 {
+			// the branch that just ended is not the first one and the merging node has a lag: filter its last points out
+			fmt.Fprintf(&sb, "  |where(lambda: \"i\" < %d)\n", n-chain[merge].arg)
+		}
 		if branchStart[j] {
 			nbranch++
 			if merge >= 0 {
@@ -223,7 +244,7 @@ func runCase(chainS, stopKind, class string, n int, stopBound time.Duration) (re
 			}
 		}
 		switch ns.kind {
-		case "union", "join":
+		case "union", "join", "ojoin", "lunion":
 			// several PARENTS: the branches b1 … bk are merged again (edge.multiConsumer)
 			var others, names []string
 			for b := 2; b <= nbranch; b++ {
@@ -232,8 +253,12 @@ func runCase(chainS, stopKind, class string, n int, stopBound time.Duration) (re
 			for b := 1; b <= nbranch; b++ {
 				names = append(names, fmt.Sprintf("'%c'", 'a'+b-1))
 			}
-			if ns.kind == "union" {
+			if ns.kind == "union" || ns.kind == "lunion" {
 				fmt.Fprintf(&sb, "b1\n  |union(%s)\n", strings.Join(others, ", "))
+			} else if ns.kind == "ojoin" {
+				// OUTER join: a set some parent has no point for is emitted with that parent's fields filled
+				fmt.Fprintf(&sb, "b1\n  |join(%s).as(%s).fill(0.0)\n", strings.Join(others, ", "), strings.Join(names, ", "))
+				idField = "a.i"
 			} else {
 				fmt.Fprintf(&sb, "b1\n  |join(%s).as(%s)\n", strings.Join(others, ", "), strings.Join(names, ", "))
 				idField = "a.i"
